@@ -234,16 +234,91 @@ func computeLockFacts(root *pkg) *lockFacts {
 	}
 
 	// ---- F1: accesses to the guarded fields ---------------------------------------------
+	// A function literal handed directly to a locked eventList method that does nothing with that parameter
+	// but call it runs while the callee holds the lock: what it touches is touched under the lock, whoever
+	// wrote the literal (`l.evict(func(e *event, n int) bool { return n > l.maxSize })`).
+	callOnlyParam := func(callee *fn, idx int) bool {
+		var obj types.Object
+		k := 0
+		for _, fld := range callee.decl.Type.Params.List {
+			for _, nm := range fld.Names {
+				if k == idx {
+					obj = root.info.Defs[nm]
+				}
+				k++
+			}
+		}
+		if obj == nil {
+			return false
+		}
+		only := true
+		var stack []ast.Node
+		ast.Inspect(callee.decl.Body, func(n ast.Node) bool {
+			if n == nil {
+				stack = stack[:len(stack)-1]
+				return true
+			}
+			if id, ok := n.(*ast.Ident); ok && root.info.Uses[id] == obj {
+				c, isCall := stack[len(stack)-1].(*ast.CallExpr)
+				if !isCall || c.Fun != ast.Expr(id) {
+					only = false
+				}
+				// not from a goroutine or a deferred call either (those may run after the unlock)
+				if len(stack) >= 2 {
+					switch stack[len(stack)-2].(type) {
+					case *ast.GoStmt, *ast.DeferStmt:
+						only = false
+					}
+				}
+			}
+			stack = append(stack, n)
+			return true
+		})
+		return only
+	}
+	transferred := map[*ast.FuncLit]bool{}
 	for _, x := range fns {
 		ast.Inspect(x.decl.Body, func(n ast.Node) bool {
-			if s, ok := n.(*ast.SelectorExpr); ok {
-				if _, g := guarded[root.info.Uses[s.Sel]]; g {
-					x.touches = true
-					f.numStateAccesses++
+			c, ok := n.(*ast.CallExpr)
+			if !ok {
+				return true
+			}
+			sel, ok := c.Fun.(*ast.SelectorExpr)
+			if !ok {
+				return true
+			}
+			callee := byObj[root.info.Uses[sel.Sel]]
+			if callee == nil || callee.recvType != "eventList" || !callee.locked {
+				return true
+			}
+			for i, a := range c.Args {
+				if fl, ok := a.(*ast.FuncLit); ok && callOnlyParam(callee, i) {
+					transferred[fl] = true
 				}
 			}
 			return true
 		})
+	}
+	for _, x := range fns {
+		var count func(n ast.Node, own bool)
+		count = func(root0 ast.Node, own bool) {
+			ast.Inspect(root0, func(n ast.Node) bool {
+				if fl, ok := n.(*ast.FuncLit); ok && transferred[fl] && n != root0 {
+					count(fl.Body, false)
+					return false
+				}
+				if s, ok := n.(*ast.SelectorExpr); ok {
+					if _, g := guarded[root.info.Uses[s.Sel]]; g {
+						if own {
+							x.touches = true
+						}
+						f.numStateAccesses++
+					}
+				}
+				return true
+			})
+		}
+		count(x.decl.Body, true)
 	}
 	// call sites of every eventList method: caller -> callee, and uses that are not calls
 	callers := map[*fn][]*fn{}
@@ -514,7 +589,11 @@ func computeLockFacts(root *pkg) *lockFacts {
 		fn   *fn
 		call *ast.CallExpr
 		name string      // read | cas01 | write
-		ifSt *ast.IfStmt // the if statement whose condition is exactly this call
+		ifSt *ast.IfStmt // the if statement whose condition is exactly this call (or, negated form, its negation)
+		// negated form: `if !cas { ...; return }` with no else; what follows the statement in its block runs only
+		// when the swap succeeded
+		negated  bool
+		ifParent ast.Node
 	}
 	var uses []closedUse
 	var clearCalls []ast.Node
@@ -559,6 +638,12 @@ func computeLockFacts(root *pkg) *lockFacts {
 						if len(stack) >= depth {
 							if is, ok := stack[len(stack)-depth].(*ast.IfStmt); ok && is.Cond == ast.Expr(call) {
 								cu.ifSt = is
+							} else if un, ok := stack[len(stack)-depth].(*ast.UnaryExpr); ok && un.Op == token.NOT && un.X == ast.Expr(call) && len(stack) >= depth+2 {
+								if is, ok := stack[len(stack)-depth-1].(*ast.IfStmt); ok && is.Cond == ast.Expr(un) && is.Else == nil && len(is.Body.List) > 0 {
+									if _, ret := is.Body.List[len(is.Body.List)-1].(*ast.ReturnStmt); ret {
+										cu.ifSt, cu.negated, cu.ifParent = is, true, stack[len(stack)-depth-2]
+									}
+								}
 							}
 						}
 						uses = append(uses, cu)
@@ -607,12 +692,16 @@ func computeLockFacts(root *pkg) *lockFacts {
 			for i := range clearCalls {
 				inside := false
 				for _, anc := range clearCallStacks[i] {
-					if anc == ast.Node(w.ifSt.Body) {
+					if !w.negated && anc == ast.Node(w.ifSt.Body) {
+						inside = true
+					}
+					// negated form: later in the block that holds `if !cas { return }`
+					if w.negated && anc == w.ifParent && clearCalls[i].Pos() > w.ifSt.End() {
 						inside = true
 					}
 				}
 				if !inside {
-					f.fail(&f.closedSingleCasGuardsClear, "a call of eventList.Clear (%s) is not inside the body of the `if` whose condition is the compare-and-swap on r.closed", root.fset.Position(clearCalls[i].Pos()))
+					f.fail(&f.closedSingleCasGuardsClear, "a call of eventList.Clear (%s) is neither inside the body of the `if` whose condition is the compare-and-swap on r.closed nor after an `if !swap { return }` in the same block", root.fset.Position(clearCalls[i].Pos()))
 				}
 			}
 		}
